@@ -93,6 +93,7 @@ impl<T: ?Sized> Mutex<T> {
         if !rt::active() {
             return self.0.lock();
         }
+        rt::maybe_stall_worker_at_lock();
         rt::sched_point_throttled(rt::site_hash(std::panic::Location::caller()));
         loop {
             if let Some(g) = self.0.try_lock() {
